@@ -209,6 +209,23 @@ def _main(a, t0):
     os.makedirs(os.path.join(VERIF, "replays", prop), exist_ok=True)
     bounded_out = os.path.join(VERIF, "replays", prop, f"bounded_{a.tier}.json")
     bproc = None
+    prov_obs, prov_inv = [], None
+    if cfg.get("provenance"):
+        from . import provenance as PV
+        sites, prov_inv, declared = PV.analyse(REPO, os.path.join(VERIF, "contracts", "_frames.py"))
+        seen_names = {}
+        for st in sites:
+            nm = st.name
+            k = seen_names.get(nm, 0)
+            seen_names[nm] = k + 1
+            if k:
+                nm = f"{nm}#{k}"
+            prov_obs.append(dict(name=nm, verdict="discharged" if st.ok else "refuted", time=0.0, backend="provenance",
+                                 kind="frame", line=st.lineno, reason=st.why, model={"provenance": st.tag, "file": st.module, "line": st.lineno},
+                                 fuel=None, excluded=[]))
+        prov_inv["declared_modifies"] = {f"{k[0]}:{k[1]}": v for k, v in declared.items()}
+        failed_sites = [{"file": os.path.join(REPO, o["model"]["file"]), "line": o["line"]} for o in prov_obs if o["verdict"] != "discharged"]
+        os.environ["PYVC_FAILED_SITES"] = json.dumps(failed_sites[:6])
     if cfg.get("bounded") and not a.no_bounded:
         if os.path.exists(bounded_out):
             os.unlink(bounded_out)
@@ -257,6 +274,11 @@ def _main(a, t0):
         assumptions |= set(s["assumptions"])
         externals |= set(s["externals"])
         lemmas_used |= set(s["lemmas_used"])
+    obligations += prov_obs
+    if prov_inv is not None:
+        functions.append({"function": "fastavro/**/*.py (every function: store sites)", "behavior": "frame",
+                          "source_hash": "-", "obligations": len(prov_obs), "paths": 0, "inlined": [],
+                          "gen_s": 0.0, "solve_s": 0.0, "functions_analysed": prov_inv["functions"]})
     n_ob = len(obligations)
     discharged = [o for o in obligations if o["verdict"] == "discharged"]
     failing = [o for o in obligations if o["verdict"] != "discharged"]
@@ -352,7 +374,7 @@ def _main(a, t0):
             "checker_cmd": f"./vcheck {prop} --tier {a.tier}",
             "trusted_base": trusted_base,
             "explanation": (f"{len(functions)} contracts on real functions of /repo (re-parsed this run); "
-                            f"{n_ob} obligations generated, {len(discharged)} discharged by z3; "
+                            f"{n_ob} obligations generated, {len(discharged)} discharged ({by_backend}); "
                             f"bounded stand-in (never counted as proved): "
                             + (f"{bounded['evaluations']} cases, {bounded['n_failures']} failures" if bounded else "not run")),
             "functions_under_contract": functions,
@@ -363,6 +385,7 @@ def _main(a, t0):
             "unsupported": unsupported, "fail_closed": fail_closed,
             "excluded_by_known_finding": [o["name"] for o in obligations if o["excluded"]],
             "lemmas": sorted(lemmas_used),
+            "provenance_inventory": prov_inv,
             "samples": samples,
             "bounded": ({k: bounded[k] for k in ("evaluations", "distinct_nontrivial", "clauses", "bounds", "n_failures", "known_ids", "wall_s")}
                         if bounded else None),
